@@ -215,9 +215,23 @@ WatchDiff(e) ==
              \cup {<<"disk_differs", p>> : p \in {p \in (DOMAIN e.a.disk.files) \cup (DOMAIN e.b.disk.files) :
                       DiskContent(e.a.disk, p) # DiskContent(e.b.disk, p)}}
         ELSE {})
+\* F29: a directory that never existed before is created while watching (below a static tree or inside the
+\* fixed part of a pattern): AsyncInotifyWrapper.change_loop installs watches only for directories the
+\* workflow asked for, so what is created inside the new directory goes unnoticed; the watch-mode rebuild
+\* misses pattern matches that the rescan of a restart finds
+GlobMatchesOf(db) ==
+  UNION {UNION {{db.nodes[s].nglobs[i][3][j] : j \in DOMAIN db.nodes[s].nglobs[i][3]} : i \in DOMAIN db.nodes[s].nglobs} :
+           s \in {s \in Steps(db) : ~db.nodes[s].detached}}
+StartsWithDir(d, p) == Len(p) > Len(d) + 1 /\ SubSeq(p, 1, Len(d) + 1) = d \o "/"
+MissedUnderNewDirectory(e) ==
+  LET newdirs == {ev[2] : ev \in {x \in SeqSet(e.info.events) : Len(x) >= 2 /\ x[1] = "mkdir"}}
+      extra == GlobMatchesOf(e.b.state) \ GlobMatchesOf(e.a.state)
+  IN extra # {} /\ \A p \in extra : \E d \in newdirs : StartsWithDir(d, p)
 WatchEqRestart(e) ==
   IF (RcClass(e.a.rc) = "failed" /\ StaleDefinerConflict(e.a)) \/ (RcClass(e.b.rc) = "failed" /\ StaleDefinerConflict(e.b))
   THEN {<<c[1], c[2], "F17-step-moved-between-plans-watch-vs-restart">> : c \in WatchDiff(e)}
+  ELSE IF MissedUnderNewDirectory(e)
+  THEN {<<c[1], c[2], "F29-new-directory-not-watched">> : c \in WatchDiff(e)}
   ELSE WatchDiff(e)
 
 (* C06: `stepup clean` on a read-only connection *)
